@@ -201,8 +201,8 @@ Oracle: replace_all_bytes / replace_all_with_bytes == splice of the reference mo
 replace_all / replace_all_with on &str == boundary-skipping splice, result re-validated as UTF-8, no panic; fallible and infallible entry points. \
 Non-trivial = at least one match and (a match was skipped for not being on character boundaries, or an empty match was replaced, or the closure stopped before the last match). Distinct = distinct case fingerprint.",
     assumptions: &["reference model of replace_all: str variant skips a non-boundary match without advancing the copy cursor (documented behaviour)"],
-    cases_quick: 240_000,
-    cases_thorough: 4_000_000,
+    cases_quick: 800_000,
+    cases_thorough: 6_000_000,
     strategy: c12_strategy,
     check: c12_check,
     extra: None,
@@ -582,8 +582,8 @@ Oracle: rejected iff (a) anchoring not covered by the start kind (replace/stream
 fallible => Err value, infallible => panic, accepted => Ok and draining a constructed iterator (or repeating try_find_overlapping after a successful first call) never fails. Outcomes are classified with catch_unwind. \
 Every evaluation is non-trivial (each is a distinct (cell, input) pair); exhaustive over cells, sampled over inputs. Distinct = distinct case fingerprint.",
     assumptions: &["the replacement table has exactly patterns_len entries and str APIs get valid UTF-8 (other misuse panics are outside the property)"],
-    cases_quick: 60_000,
-    cases_thorough: 1_000_000,
+    cases_quick: 300_000,
+    cases_thorough: 3_000_000,
     strategy: c13_strategy,
     check: c13_check,
     extra: Some(c13_extra),
@@ -811,8 +811,8 @@ Oracle per search call (try_find normal and earliest; every call of a caller-dri
 prefilter invocations <= span+2, their scanned bytes (hook lower bound) <= 3*span+3 (no re-scanning), no invocation scans more than 255 bytes beyond the candidate it returns (hit position of the rare-byte/memmem primitives), and a step budget of 3*span+16 (transitions + failure links + prefilter invocations) never trips (the hook panics with a fixed message, so a non-terminating search is a deterministic finding, not a time-out). \
 Non-trivial = span >= 8 and some measured call followed >= span/4 failure links (the chain was exercised). Distinct = distinct case fingerprint.",
     assumptions: &["the counters are only as complete as the hook call sites: next_state calls in try_find_fwd_imp, try_find_overlapping_fwd_imp, StreamChunkIter::next; fail-link loops of noncontiguous and contiguous next_state", "prefilter work is measured at the Prefilter::find_in wrapper as a lower bound (candidate - span.start + 1, or the span length when nothing is found); work inside memchr/Teddy itself is not instrumented"],
-    cases_quick: 160_000,
-    cases_thorough: 3_000_000,
+    cases_quick: 800_000,
+    cases_thorough: 8_000_000,
     strategy: c19_strategy,
     check: c19_check,
     extra: None,
